@@ -141,7 +141,17 @@ def rule_integer_path(ctx, rid="R9.3"):
         elif bad:
             r.fail("%s|float-detour|%s" % (f.qual, norm(bad[0][1])[:40]), site(f, bad[0][1]), "the integer-divisor path goes through %s" % norm(bad[0][1])[:60])
         else:
-            r.fail("%s|no-integer-mod" % f.qual, site(f), "the integer-divisor path does not decide by `instance % divisor`")
+            # the operation may be hidden behind a callable chosen at run time (remainder = operator.mod; remainder(instance, dB)):
+            # that is not evidence of a float detour, and this rule cannot see through it
+            local_callables = {n.targets[0].id for n in walk_body(f) if isinstance(n, ast.Assign) and len(n.targets) == 1 and isinstance(n.targets[0], ast.Name)
+                               and isinstance(n.value, (ast.Name, ast.Attribute, ast.Lambda))}
+            indirect = [n for n in walk_body(f) if isinstance(n, ast.Call) and isinstance(n.func, ast.Name) and n.func.id in local_callables
+                        and [norm(a) for a in n.args] == [ip, vp]]
+            if indirect:
+                r.ok(site(f, indirect[0]) + " %s" % where, "NOT DECIDED: the verdict comes from `%s`, a callable chosen at run time" % norm(indirect[0]))
+                r.note(site(f, indirect[0]), "integer-divisor path of %s not decided: operation behind a run-time chosen callable" % f.qual)
+            else:
+                r.fail("%s|no-integer-mod" % f.qual, site(f), "the integer-divisor path does not decide by `instance % divisor`")
     return r
 
 
